@@ -20,7 +20,7 @@ CHUNK = 1
 RULE = ("cases = (command, n, dtype assignment, preset); each evaluates all tuples of the per-input lattices in one packed call "
         "and compares every cell with exact rational arithmetic; error cases enumerate shape pairs / weight counts / empty lists; "
         "non-trivial = distinct (command, dtypes, preset, cell tuple) with >=1 non-missing input")
-ASSUMPTIONS = ["value lattice V={-2,-1,-1/2,0,1/4,1,3/2,2,5}, integers {-2,-1,0,1,2,5}; numeric equality irrespective of result dtype"]
+ASSUMPTIONS = ["float32 inputs (thorough tier) are compared to 1e-6 relative", "value lattice V={-2,-1,-1/2,0,1/4,1,3/2,2,5}, integers {-2,-1,0,1,2,5}; numeric equality irrespective of result dtype"]
 M = None
 VF = [F(-2), F(-1), F(-1, 2), F(0), F(1, 4), F(1), F(3, 2), F(2), F(5)]
 VI = [F(-2), F(-1), F(0), F(1), F(2), F(5)]
@@ -94,7 +94,9 @@ def _packed(case):
     counters = {"judged": 0, "unspecified": 0}
     tag = {"op": op, "n": n, "dtypes": list(dts), "params": params}
     res = D.execute(op, arrays, params)
-    oc = D.judge("C07", op, params, cols, res, (len(tuples),), viols, tag, counters, V)
+    # single-precision inputs give single-precision results: compare those to 2^-20 relative
+    tol = 1e-6 if any(d == "float32" for d in dts) else 1e-9
+    oc = D.judge("C07", op, params, cols, res, (len(tuples),), viols, tag, counters, V, tol=tol)
     # key must distinguish the dtype order for raised errors (Sum([int,float]) vs Sum([float,int]))
     for v in viols:
         if ":raised:" in v["key"] or ":mask-dropped" in v["key"]:
